@@ -34,7 +34,7 @@ func truncate(s string, n int) string {
 	return s
 }
 
-var c17Families = []string{"lr", "expr", "mutual", "hidden", "brackets", "seplist", "rightrec", "exprparen"}
+var c17Families = []string{"lr", "lr2", "expr", "expr4", "mutual", "mutual3", "hidden", "brackets", "seplist", "rightrec", "exprparen"}
 
 func genC17(t *rapid.T) interface{} {
 	maxN := 100
@@ -45,9 +45,9 @@ func genC17(t *rapid.T) interface{} {
 		Family:  rapid.SampledFrom(c17Families).Draw(t, "family"),
 		Variant: rapid.IntRange(0, 7).Draw(t, "variant"),
 		N:       rapid.IntRange(8, maxN).Draw(t, "n"),
-		Shape:   rapid.IntRange(0, 3).Draw(t, "shape"),
+		Shape:   rapid.SampledFrom([]int{0, 1, 2, 3, 0, 1, 2, 3, 4, 5, 6, 7}).Draw(t, "shape"),
 	}
-	if c.Family == "hidden" && c.Shape%2 == 1 && c.N > maxN*2/5 {
+	if c.Family == "hidden" && c.Shape%4%2 == 1 && c.N > maxN*2/5 {
 		c.N = maxN * 2 / 5 // cubic on this input shape: keep the doubled parse affordable
 	}
 	return c
@@ -100,12 +100,37 @@ func c17Parser(family string, variant int, limit *int) parsley.Parser {
 		var p parser.Func
 		p = memo(alt(combinator.SeqOf(&p, r('b')), r('a')))
 		return &p
-	case "expr", "exprparen": // expr/term/factor
+	case "expr", "exprparen": // expr/term/factor, one left-recursive alternative per level
 		var expr, term, factor parser.Func
 		factor = memo(first(terminal.Integer("i"), wrap(combinator.SeqOf(r('('), &expr, r(')')))))
 		term = memo(alt(combinator.SeqOf(&term, first(r('*'), r('/')), &factor), &factor))
 		expr = memo(alt(combinator.SeqOf(&expr, first(r('+'), r('-')), &term), &term))
 		return &expr
+	case "lr2": // P -> P b | P c | a   (two left-recursive alternatives on one level)
+		var p parser.Func
+		if perm {
+			p = memo(combinator.Any(r('a'), combinator.SeqOf(&p, r('c')), combinator.SeqOf(&p, r('b'))))
+		} else {
+			p = memo(combinator.Any(combinator.SeqOf(&p, r('b')), combinator.SeqOf(&p, r('c')), r('a')))
+		}
+		return &p
+	case "expr4": // expr -> expr + term | expr - term | term ; term -> term * factor | term / factor | factor
+		var expr, term, factor parser.Func
+		factor = memo(first(terminal.Integer("i"), wrap(combinator.SeqOf(r('('), &expr, r(')')))))
+		if perm {
+			term = memo(combinator.Any(&factor, combinator.SeqOf(&term, r('/'), &factor), combinator.SeqOf(&term, r('*'), &factor)))
+			expr = memo(combinator.Any(&term, combinator.SeqOf(&expr, r('-'), &term), combinator.SeqOf(&expr, r('+'), &term)))
+		} else {
+			term = memo(combinator.Any(combinator.SeqOf(&term, r('*'), &factor), combinator.SeqOf(&term, r('/'), &factor), &factor))
+			expr = memo(combinator.Any(combinator.SeqOf(&expr, r('+'), &term), combinator.SeqOf(&expr, r('-'), &term), &term))
+		}
+		return &expr
+	case "mutual3": // A -> B x | a ; B -> C y | b ; C -> A z | c
+		var a, b, c3 parser.Func
+		a = memo(alt(combinator.SeqOf(&b, r('x')), r('a')))
+		b = memo(alt(combinator.SeqOf(&c3, r('y')), r('b')))
+		c3 = memo(alt(combinator.SeqOf(&a, r('z')), r('c')))
+		return &a
 	case "mutual": // A -> B x | a ; B -> A y | b
 		var a, b parser.Func
 		a = memo(alt(combinator.SeqOf(&b, r('x')), r('a')))
@@ -140,10 +165,38 @@ func c17Parser(family string, variant int, limit *int) parsley.Parser {
 
 // c17Input builds an input of roughly n bytes for the family.
 func c17Input(family string, n int, shape int) string {
+	// shapes 4..7 are ill-formed variants of shapes 0..3: the work bound holds for every input,
+	// and a failing search visits failing sub-parses that a successful one never meets
+	if shape >= 4 {
+		s := c17ValidInput(family, n, shape-4)
+		switch shape {
+		case 4: // truncated
+			return s[:len(s)-1-len(s)/8]
+		case 5: // junk in the middle
+			return s[:len(s)/2] + "?" + s[len(s)/2:]
+		case 6: // junk at the end
+			return s + "?"
+		default: // first half only, doubled closers missing
+			return s[:len(s)*3/4]
+		}
+	}
+	return c17ValidInput(family, n, shape)
+}
+
+func c17ValidInput(family string, n int, shape int) string {
 	switch family {
 	case "lr":
 		return "a" + strings.Repeat("b", n-1)
-	case "expr":
+	case "lr2":
+		var sb strings.Builder
+		sb.WriteString("a")
+		for i := 0; sb.Len() < n; i++ {
+			sb.WriteByte("bc"[(i/(1+shape%3))%2])
+		}
+		return sb.String()
+	case "mutual3":
+		return "a" + strings.Repeat("zyx", n/3)
+	case "expr", "expr4":
 		ops := [][]string{{"+", "*"}, {"-", "/"}, {"+", "+"}, {"*", "*"}}[shape%4]
 		var sb strings.Builder
 		sb.WriteString("1")
@@ -242,13 +295,43 @@ func checkC17(ci interface{}, st *Stats) error {
 	}
 	limit := 0
 	p := c17Parser(c.Family, c.Variant, &limit)
-	in1 := c17Input(c.Family, c.N, c.Shape)
-	in2 := c17Input(c.Family, 2*c.N, c.Shape)
-	// doubling is measured on the actual lengths (the builders round)
-	ratioLen := float64(len(in2)) / float64(len(in1))
-	c1, e1, _ := c17Calls(p, in1, &limit, 0)
-	if e1 != nil {
-		return fmt.Errorf("input of size n=%d (%q) is rejected: %v", c.N, truncate(in1, 80), e1)
+	// A chain of sizes 8, 16, 32, ... n, 2n: every step is guarded by 16x the previous count, so an
+	// exponential regression is reported by a count after little work, never by a timeout.
+	sizes := []int{}
+	for s := 8; s < c.N; s *= 2 {
+		sizes = append(sizes, s)
+	}
+	sizes = append(sizes, c.N, 2*c.N)
+	prevCalls, prevLen := 0, 0
+	var c1, c2 int
+	var in1 string
+	for i, sz := range sizes {
+		in := c17Input(c.Family, sz, c.Shape)
+		lim := 0
+		if i > 0 {
+			lim = 16 * prevCalls
+			if r := float64(len(in)) / float64(prevLen) / 2; r > 1 {
+				// the builders round: allow the degree-4 bound for the real length ratio
+				lim = int(float64(lim) * r * r * r * r)
+			}
+		}
+		calls, perr, aborted := c17Calls(p, in, &limit, lim)
+		if aborted {
+			return fmt.Errorf("calls(%d bytes) = %d, but the parse of %d bytes was stopped after %d calls: more than 16x for (at most) a doubling of the input", prevLen, prevCalls, len(in), calls)
+		}
+		if perr != nil && c.Shape < 4 {
+			return fmt.Errorf("input of size %d (%q) is rejected: %v", sz, truncate(in, 80), perr)
+		}
+		if perr != nil && !strings.HasPrefix(perr.Error(), "failed to parse the input: ") {
+			return fmt.Errorf("input of size %d (%q): unexpected kind of error %v", sz, truncate(in, 80), perr)
+		}
+		if sz == c.N {
+			c1, in1 = calls, in
+		}
+		if sz == 2*c.N {
+			c2 = calls
+		}
+		prevCalls, prevLen = calls, len(in)
 	}
 	c1b, _, _ := c17Calls(p, in1, &limit, 0)
 	if c1 != c1b {
@@ -258,22 +341,6 @@ func checkC17(ci interface{}, st *Stats) error {
 	limit2 := 0
 	if c1c, _, _ := c17Calls(c17Parser(c.Family, c.Variant, &limit2), in1, &limit2, 0); c1c != c1 {
 		return fmt.Errorf("the call count differs for a second construction of the same grammar: %d, %d", c1, c1c)
-	}
-	bound := 16 * c1
-	if ratioLen > 2.0 {
-		// the doubled input is a little longer than 2x: allow the degree-4 bound for the real ratio
-		r := ratioLen / 2
-		bound = int(float64(bound) * r * r * r * r)
-	}
-	c2, e2, aborted := c17Calls(p, in2, &limit, bound)
-	if aborted {
-		return fmt.Errorf("calls(n=%d, %d bytes) = %d, but the parse of the doubled input (%d bytes) was stopped after %d calls: more than 16x", c.N, len(in1), c1, len(in2), c2)
-	}
-	if e2 != nil {
-		return fmt.Errorf("doubled input (%q) is rejected: %v", truncate(in2, 80), e2)
-	}
-	if c2 > bound {
-		return fmt.Errorf("calls(%d bytes) = %d, calls(%d bytes) = %d: ratio %.1f exceeds 16", len(in1), c1, len(in2), c2, float64(c2)/float64(c1))
 	}
 	st.Class("family " + c.Family)
 	ratio := float64(c2) / float64(c1)
@@ -289,6 +356,9 @@ func checkC17(ci interface{}, st *Stats) error {
 	}
 	if c.N >= 32 && c.Family != "brackets" && c.Family != "seplist" && c.Family != "rightrec" {
 		st.NonTrivial()
+	}
+	if c.Shape >= 4 {
+		st.Class("ill-formed input shape")
 	}
 	return nil
 }
